@@ -30,7 +30,7 @@ def corpus(R):
     srcs = chargen.strings(R, chargen.SHELL_ALPHA, 3 if R.tier == "quick" else 4)
     rec = c03.gen(R, 3 if R.tier == "quick" else 4, False, name="recbfs")
     srcs += [c["src"] for c in rec]
-    mut = c03.gen(R, 8, True, simulate=20 if R.tier == "quick" else 400, name="recmut")
+    mut = c03.gen(R, 8, True, simulate=6 if R.tier == "quick" else 400, name="recmut")
     srcs += [c["src"] for c in mut]
     progs = c09.gen(R, 2, 10 if R.tier == "quick" else 300)
     for c in progs:
@@ -99,16 +99,7 @@ def run(R):
         # the no-alias runs first
         rr.sort(key=lambda r: (r["aliases"] != "", r["aliases"], r["panicnil"] < 0, r["source"], r["panicnil"]))
         recs.append(dict(src=srcs[i], runs=rr))
-    bad = []
-    shard = 15000
-    for s in range(0, len(recs), shard):
-        part = recs[s:s + shard]
-        path = R.path("obs", "c01-%d.ndjson" % s)
-        vlib.write_ndjson(path, part)
-        res = R.tlc("TotalCheck", "INIT Init\nNEXT Next\nINVARIANT Chk\n", env={"VERIF_OBS": path}, workers=1, name="TotalCheck%d" % s, timeout=3000)
-        if res.distinct != len(part):
-            raise vlib.MachineryError("TotalCheck visited %d of %d" % (res.distinct, len(part)))
-        bad += [s + p[1] - 1 for p in res.prints if p and p[0] == "MISMATCH"]
+    bad = sorted(s + p[1] - 1 for s, p in R.pvalidate("TotalCheck", recs, 6000, "c01") if p[0] == "MISMATCH")
     for k in bad:
         r = recs[k]
         culprit = [x for x in r["runs"] if x["exit"] != 0 or x["panic"] or x["err"]["class"] == "hang"] or r["runs"][:3]
